@@ -383,7 +383,16 @@ func (p *Plug) Execute(ctx context.Context, req any) (any, *plugins.Error) {
 	}
 	g := &Gate{Thread: thread, Kind: "INV", Path: path, Detail: "#" + strconv.Itoa(n) + ":" + out, Site: site, Releasable: out != Overrun, N: n}
 	if out == Late {
-		// The plugin does not honour its context: it stays parked (and releasable) when the engine gives up on it.
+		// The plugin does not honour its context: it stays parked (and releasable) when the engine gives up on it. When
+		// the engine gives up because the attempt's timeout elapsed, the call is the plugin's own business from then on
+		// and no longer counts as in flight; when the context ends EARLIER - the engine moved on for a reason of its own,
+		// e.g. it took somebody else's answer for this call's - the call keeps counting until it really returns.
+		invAt := time.Now()
+		timeout := time.Hour
+		if w.Sc.TimeoutRace {
+			timeout = 5 * time.Second
+		}
+		early := false
 		stop := context.AfterFunc(ctx, func() {
 			w.mu.Lock()
 			still := false
@@ -394,8 +403,13 @@ func (p *Plug) Execute(ctx context.Context, req any) (any, *plugins.Error) {
 			}
 			if still {
 				g.Abandoned = true
-				w.InFlight[path]--
-				w.log(Event{Kind: "CTXDONE", Thread: thread, Path: path, N: n, Out: out})
+				if time.Since(invAt) < timeout {
+					early = true
+					w.log(Event{Kind: "CTXDONE", Thread: thread, Path: path, N: n, Out: out, Err: "before the timeout"})
+				} else {
+					w.InFlight[path]--
+					w.log(Event{Kind: "CTXDONE", Thread: thread, Path: path, N: n, Out: out})
+				}
 			}
 			w.mu.Unlock()
 			w.signal()
@@ -407,6 +421,9 @@ func (p *Plug) Execute(ctx context.Context, req any) (any, *plugins.Error) {
 			w.InFlight[path]--
 			w.log(Event{Kind: "RET", Thread: thread, Path: path, N: n, Out: out})
 		} else {
+			if early {
+				w.InFlight[path]--
+			}
 			w.log(Event{Kind: "LATERET", Thread: thread, Path: path, N: n, Out: out})
 		}
 		w.mu.Unlock()
